@@ -3,6 +3,7 @@
 package main
 
 import (
+	"time"
 	"encoding/json"
 	"fmt"
 	"math/rand"
@@ -33,6 +34,9 @@ type GenInput struct {
 	ReplaceAlias string `json:"replaceAlias,omitempty"`
 	// root-package stream: the mocked package is the module's root package; how `dir` is spelled
 	RootDir string `json:"rootDir,omitempty"`
+	// two-runs stream: generate, change an interface of *another* package that the mocked interface embeds, generate
+	// again over the same tree: the mock follows the interface
+	TwoRuns bool `json:"twoRuns,omitempty"`
 	// names of interfaces that are also declared as function-local types (inside a function
 	// body / inside a function literal of a package-level initialiser)
 	LocalTypes []string `json:"localTypes"`
@@ -60,6 +64,12 @@ func (p c01) Generate(c *Ctx) []any {
 	for i, d := range []string{".", "{{.InterfaceDirRelative}}", "{{.InterfaceDir}}", "./", "{{.ConfigDir}}/.", "{{.InterfaceDir}}/"} {
 		g := GenInput{Template: []string{"testify", "matryer"}[i%2], Formatter: []string{"gofmt", "noop", "goimports"}[i%3], Options: map[string]any{}, RootDir: d}
 		g.Data.Stream = "root-package"
+		g.Data.Placement = "inpkg"
+		out = append(out, g)
+	}
+	for i := 0; i < 2; i++ {
+		g := GenInput{Template: []string{"testify", "matryer"}[i%2], Formatter: "gofmt", Options: map[string]any{}, TwoRuns: true}
+		g.Data.Stream = "two-runs"
 		g.Data.Placement = "inpkg"
 		out = append(out, g)
 	}
@@ -338,6 +348,9 @@ func (p c01) Run(c *Ctx, raw json.RawMessage) Case {
 	defer os.RemoveAll(dir)
 	if in.RootDir != "" {
 		return c01RootPackage(c, &in, dir)
+	}
+	if in.TwoRuns {
+		return c01TwoRuns(c, &in, dir)
 	}
 	d := &in.Data
 	files := supportFiles()
@@ -622,6 +635,53 @@ func c01RootPackage(c *Ctx, in *GenInput, dir string) Case {
 	} else if out, err := runGo(dir, "test", "-count=1", "-run", "^$", "./..."); err != nil {
 		compiles = false
 		or = fail("does-not-compile", "the file written for the module's root package (template %s, formatter %s, dir %q) does not compile with its package: %s", in.Template, in.Formatter, in.RootDir, lastLines(strings.ReplaceAll(out, dir, ""), 5))
+	}
+	return Case{Impl: map[string]any{"compiles": compiles}, Oracle: or, Nontrivial: true, Tags: tags, NoModel: true}
+}
+
+// c01TwoRuns: the method set of an interface also depends on the packages it embeds interfaces from.
+func c01TwoRuns(c *Ctx, in *GenInput, dir string) Case {
+	base1 := "package base\n\ntype Resource interface {\n\tClose() error\n}\n"
+	base2 := "package base\n\ntype Resource interface {\n\tClose() error\n\tFlush(force bool) (int, error)\n}\n"
+	files := map[string]string{
+		"go.mod":       "module example.com/m\n\ngo 1.23\n\nrequire github.com/stretchr/testify v1.10.0\n\nrequire (\n\tgithub.com/davecgh/go-spew v1.1.1 // indirect\n\tgithub.com/pmezard/go-difflib v1.0.0 // indirect\n\tgithub.com/stretchr/objx v0.5.2 // indirect\n\tgopkg.in/yaml.v3 v3.0.1 // indirect\n)\n",
+		"base/base.go": base1,
+		"svc/svc.go":   "package svc\n\nimport \"example.com/m/base\"\n\ntype Service interface {\n\tbase.Resource\n\tRun(n int) error\n}\n",
+		"svc/zz_assert_test.go": "package svc\n\nvar _ Service = (*MockService)(nil)\n",
+	}
+	if b, err := os.ReadFile(filepath.Join(c.Src, "go.sum")); err == nil {
+		files["go.sum"] = string(b)
+	}
+	files[".mockery.yml"] = fmt.Sprintf("template: %s\nformatter: %s\nforce-file-write: true\nfilename: mocks_test.go\npackages:\n  example.com/m/svc:\n    interfaces:\n      Service:\n", in.Template, in.Formatter)
+	if err := writeFiles(dir, files); err != nil {
+		return Case{Oracle: fail("harness", "%v", err)}
+	}
+	tags := []string{"tmpl-" + in.Template, "stream-two-runs"}
+	or := Oracle{OK: true}
+	compiles := true
+	step := func(n int) bool {
+		res := c.runMockery(dir, nil, nil)
+		if res.Panicked {
+			or = fail("panic", "run %d: mockery panicked: %s", n, lastLines(res.Stderr, 5))
+			return false
+		}
+		if res.Exit != 0 {
+			or = fail("does-not-compile", "run %d: mockery failed: %s %s", n, formatErrLine(res), lastLines(res.Stderr, 1))
+			return false
+		}
+		if out, err := runGo(dir, "test", "-count=1", "-run", "^$", "./..."); err != nil {
+			or = fail("not-assignable", "run %d: the mock written by this run does not implement the interface as it is now declared: %s", n, lastLines(strings.ReplaceAll(out, dir, ""), 5))
+			return false
+		}
+		return true
+	}
+	if step(1) {
+		// make sure the edit is later than the first output on coarse clocks, then change the embedded foreign interface
+		time.Sleep(20 * time.Millisecond)
+		os.WriteFile(filepath.Join(dir, "base", "base.go"), []byte(base2), 0o644)
+		compiles = step(2)
+	} else {
+		compiles = false
 	}
 	return Case{Impl: map[string]any{"compiles": compiles}, Oracle: or, Nontrivial: true, Tags: tags, NoModel: true}
 }
